@@ -22,6 +22,16 @@ var c04Tracked = map[string]string{
 	"ERC20Transfer":                ".erc20Transfer",
 }
 
+// C08: index-maintaining calls of the erc20 keeper
+var c08Mode = false
+var c08Tracked = map[string]string{
+	"SetAliasesDenom":    ".setAliases",
+	"DeleteAliasesDenom": ".deleteAliases",
+	"SetDenomMetaData":   ".setMetadata",
+	"AddTokenPair":       ".addTokenPair",
+	"SetTokenPair":       ".setTokenPair",
+}
+
 type c04Path struct {
 	conds []string
 	calls []string
@@ -47,6 +57,10 @@ func c04TrackedCall(n ast.Node) string {
 						res = v
 						return false
 					}
+				}
+				if v, ok := c08Tracked[se.Sel.Name]; ok && c08Mode {
+					res = v
+					return false
 				}
 			}
 		}
